@@ -193,8 +193,13 @@ def run(ctx):
     k = 0
     zones = ['UTC', 'Europe/Paris', 'America/New_York', 'Asia/Kolkata', 'Pacific/Chatham']
     for j in range(300 if quick else 5000):
-        dt = BASE + datetime.timedelta(days=rnd.randint(-400, 400), seconds=rnd.randint(0, 86399),
-                                       microseconds=rnd.choice([0, 1, 999999, rnd.randint(0, 999999)]))
+        if j % 3 == 2:
+            # anywhere in the representable range (two days clear of its ends, so that zone offsets stay inside)
+            dt = datetime.datetime.min + datetime.timedelta(days=rnd.randint(2, 3652055), seconds=rnd.randint(0, 86399),
+                                                            microseconds=rnd.choice([0, 1, 999999, rnd.randint(0, 999999)]))
+        else:
+            dt = BASE + datetime.timedelta(days=rnd.randint(-400, 400), seconds=rnd.randint(0, 86399),
+                                           microseconds=rnd.choice([0, 1, 999999, rnd.randint(0, 999999)]))
         k += 1
         problems = []
         if timeutils.unmarshall_time(timeutils.marshall_now(dt)) != dt:
